@@ -264,7 +264,7 @@ def fileAfterOpenWrite {α : Type} (flags : List String) (old : Option (List α)
     is returned and nothing after it runs -/
 def saveStepsM : List String :=
   ["return recv.enc(recv.m,recv.cb)",
-   "v1,v0=os.OpenFile(recv.file,os.O_RDWR|os.O_CREATE|os.O_TRUNC,0644);return v0",
+   "v1,v0=os.OpenFile(recv.file,os.O_CREATE|os.O_RDWR|os.O_TRUNC,420);return v0",
    "_,v0=recv.m.WriteTo(v1);return v0"]
 def saveLoopM : List String := ["if v0=step();v0!=nil{return v0}"]
 def saveFinalM : String := "return v1.Close()"
